@@ -1,9 +1,12 @@
 (* C06 — dag_to_mag preserves exactly the observable independence model; inducing_path is exact.
-   Statements: C06/Spec.v.  Unbounded: inducing_exact, inducing_witness, mag_nodes, mag_marks.
+   Statements: C06/Spec.v.  Unbounded: inducing_exact, inducing_witness, mag_nodes, mag_marks, node_level_exact
+   (the code's node-level collider test decides the same edge-level definition on acyclic D/B graphs, bows allowed;
+   node_level_needs_acyclic: with a 2-cycle it does not).
    Bounded (all DAGs on <= 4 nodes, all disjoint L,S, all ordered pairs, all Z; kernel computation):
    mag_adjacency_bounded_4, mag_independence_bounded_4 (the full unbounded statement is Spec.mag_full_stmt). *)
 From Coq Require Import List Arith Bool.
-From PG Require Import Base.ListSet Graph.MGraph Graph.MSep C06.Model C06.Spec C06.Enum C06.Proofs C06.Bounded_n4 C06.BoundedProp.
+From PG Require Import Base.ListSet Graph.MGraph Graph.MSep C06.Model C06.Spec C06.Enum C06.Proofs C06.NodeLevel C06.Bounded_n4 C06.BoundedProp.
+Import ListNotations.
 
 Theorem inducing_exact : inducing_exact_stmt.
 Proof. exact C06.Proofs.inducing_exact. Qed.
@@ -30,3 +33,19 @@ Theorem mag_independence_bounded_4 : forall n E L0 S0,
   n <= 4 -> acyclicb (dag_of n E) = true -> mag_independence_stmt (dag_of n E) (L_of n L0) (S_of n L0 S0).
 Proof. exact mag_independence_bounded_4_prop. Qed.
 Print Assumptions mag_independence_bounded_4.
+
+(* the search with the code's NODE-level collider test (_is_collider: an arrowhead into cur from prev and from next by any
+   edge of the pair) decides the edge-level definition: well-formed, no undirected edge, acyclic directed layer, bows allowed *)
+Theorem node_level_exact : forall g x y L S,
+  wf g -> U g = [] -> acyclicb g = true -> incl (x :: y :: S) (V g) ->
+  (inducing_node_level g x y L S = true <-> exists p, inducing_path_def g L S x p y).
+Proof. exact C06.NodeLevel.node_level_exact. Qed.
+Print Assumptions node_level_exact.
+
+(* refuting witness outside that class: 0 -> 1, 1 -> 2, 2 -> 1, 3 -> 2, 1 -> 4, 2 -> 4 with S = {4} *)
+Theorem node_level_needs_acyclic :
+  let g := MkG [0; 1; 2; 3; 4] [(0, 1); (1, 2); (2, 1); (3, 2); (1, 4); (2, 4)] [] [] [] in
+  wf g /\ acyclicb g = false /\
+  inducing_node_level g 0 3 [] [4] = true /\ fst (inducing_model g 0 3 [] [4]) = false.
+Proof. exact C06.NodeLevel.node_level_needs_acyclic. Qed.
+Print Assumptions node_level_needs_acyclic.
